@@ -27,6 +27,8 @@ CLAIMS = {
             NOTE_ENGINE + "; uniqueness of batch ids across a crash is assumed (snowflake + wall clock)"),
     "C06": ("Theorems C06_*: for every configuration and every history with any number of merges (any scan order covering the files), restarts anywhere under independent configurations - hence the adopting restart, later restarts, merges abandoned with an error, merges repeated before adoption - all results equal those of a plain map on which Merge and Restart are the identity (invariant G = log invariant + state of the merge directory, proved through rotation, the rewrite loop, the three loops of loadMergeFiles, hint load and partial replay); a successful Merge leaves rewritten files that denote exactly the current mapping with one plain record per live key; after adoption the directory is rewritten files + post-merge files and the merge directory is gone; correspondence run on merge-heavy scenarios (output needing fewer/equal/more files, several merges, batches) with file listings compared",
             NOTE_ENGINE + "; the merge scan order is observed from the implementation and checked to cover all files; concurrent writers during the scan are outside the model (see C09)"),
+    "C18": ("Theorems C18_*: after every successful Merge from any reachable state the hint file has exactly one entry per record of the rewritten files, in order, with that record's key, and each entry's location holds a plain live record with that key in the rewritten file it names; loading the hint entries and scanning only the later files builds the same index (keys, positions, sizes) as scanning every file; the adopting Open (hint path) and every later Open (scan path) expose the same mapping; the check decodes hint file and rewritten files of every merge with the implementation's own readers, compares them with each other and with the model, and compares every key's position after both kinds of Open",
+            NOTE_ENGINE),
     "C05": ("Theorems C05_*: a batch behaves as a private copy of the map installed at Commit (read-your-writes, in-order application, put-delete-put ends present), Commit succeeds and marks the batch committed, a committed batch rejects Put/Delete/Get/Commit without changing the database - for every database state, every sequence of batch operations incl. mid-batch flushes; correspondence run on batch-heavy scripts with a layered reference oracle",
             NOTE_ENGINE + "; the staging hash index is abstracted to key lookup; a fatal double unlock is observable only in the correspondence run"),
     "C11": ("Coq theorems (props/C11.v, closed under the global context) for every history of a data file, every record length and every block offset, about an executable model that is run against package datafile on generated histories on every check (bytes, positions, sizes, scans, random reads compared)",
